@@ -8,6 +8,9 @@
 #define RXSZ 3
 #endif
 #define COAP_RXBUFFER_SIZE RXSZ
+#ifndef RCVMAX
+#define RCVMAX 64   /* largest message the session accepts in this unit (larger declarations must disconnect) */
+#endif
 #include "coap3/coap_libcoap_build.h"
 #include "spec/vin.h"
 #include "spec/tcp_len.h"
@@ -41,7 +44,7 @@ static ssize_t vh_read(coap_session_t *session, uint8_t *data, size_t len) {
   return n;
 }
 void coap_session_disconnected_lkd(coap_session_t *s, coap_nack_reason_t r) { (void)s; (void)r; G_disc++; }
-size_t coap_session_max_pdu_rcv_size(const coap_session_t *s) { (void)s; size_t v = nondet_rcvsize(); __CPROVER_assume(v >= 64 && v <= COAP_DEFAULT_MAX_PDU_RX_SIZE - 6); return v; }
+size_t coap_session_max_pdu_rcv_size(const coap_session_t *s) { (void)s; size_t v = nondet_rcvsize(); __CPROVER_assume(v >= 16 && v <= RCVMAX); return v; }
 #endif
 #define TOKX(b0) TKL_EXT(TKL_NIB(&(b0)))
 void harness(void) {
@@ -58,7 +61,7 @@ void harness(void) {
   if (state_kind == 0) { pr = 0; session->partial_pdu = NULL; }
   else if (state_kind == 1) { ASSUME(pr >= 1 && pr < hdr0); session->partial_pdu = NULL; }
   else {
-    ASSUME((h == 2 || h == 3 || h == 4 || h == 6) && used >= 1 && used <= alloc && alloc <= COAP_DEFAULT_MAX_PDU_RX_SIZE && pr >= h && pr < h + used);
+    ASSUME((h == 2 || h == 3 || h == 4 || h == 6) && used >= 1 && used <= alloc && alloc <= RCVMAX && pr >= h && pr < h + used);
     pp = malloc(sizeof(*pp)); uint8_t *blk = malloc(6 + alloc); ASSUME(pp && blk);
     pp->max_hdr_size = 6; pp->hdr_size = h; pp->token = blk + 6; pp->alloc_size = alloc; pp->used_size = used; pp->max_size = 0; pp->data = NULL; pp->actual_token.length = 0; pp->e_token_length = 0;
     session->partial_pdu = pp;
